@@ -69,6 +69,27 @@ class World:
     def many(self, ids):
         return [self.get(i) for i in ids]
 
+    def arg(self, op):
+        """the multi-object argument in the form the operation asks for: 'varargs' (default) |
+        'list' | 'tuple' | 'alias' (the LIVE child list / typed list of collection op['src'], whose
+        members are op['objs'] at this point) | 'bare' (the single object itself, no container)"""
+        form = op.get("form", "varargs")
+        objs = self.many(op["objs"]) if op.get("objs") is not None else None
+        if form == "alias":
+            live = getattr(self.get(op["src"], ("coll",)), op.get("attr", "children"))
+            if op.get("objs") is None:      # directed histories: whatever the list holds now
+                op["objs"] = [self.idx(o) for o in live]
+            if [self.idx(o) for o in live] != list(op["objs"]):
+                raise Skip()            # only while shrinking: the aliased list changed
+            return live
+        if form == "bare":
+            if len(objs) != 1:
+                raise Skip()
+            return objs[0]
+        if form == "tuple":
+            return tuple(objs)
+        return objs
+
     # ---- one operation through the public API; returns "Ok" | "ErrBad" | "ErrOther"
     def apply(self, op):
         k = op["op"]
@@ -85,33 +106,44 @@ class World:
                 else:
                     self.reg(JUNK_VALUES[n % len(JUNK_VALUES)], "junk")
             elif k == "add":
-                c, objs = self.get(op["c"]), self.many(op["objs"])
+                c = self.get(op["c"])
                 if self.kinds[op["c"]] == "junk":
                     raise Skip()
-                c.add(*objs, override_parent=op["ov"])
+                a = self.arg(op)
+                if op.get("form", "varargs") == "varargs":
+                    c.add(*a, override_parent=op["ov"])
+                else:
+                    c.add(a, override_parent=op["ov"])
             elif k == "remove":
-                c, objs = self.get(op["c"]), self.many(op["objs"])
+                c = self.get(op["c"])
                 if self.kinds[op["c"]] == "junk":
                     raise Skip()
                 err = {"raise": "raise", "ignore": "ignore", "bad": "sometimes"}[op["err"]]
-                c.remove(*objs, recursive=op["rec"], errors=err)
+                a = self.arg(op)
+                if op.get("form", "varargs") == "varargs":
+                    c.remove(*a, recursive=op["rec"], errors=err)
+                else:
+                    c.remove(a, recursive=op["rec"], errors=err)
             elif k == "parent":
                 x = self.get(op["x"], ("source", "sensor", "coll"))
                 x.parent = None if op["p"] is None else self.get(op["p"])
             elif k == "children":
                 c = self.get(op["c"], ("coll",))      # attribute assignment only on collections
-                c.children = self.many(op["objs"])
+                c.children = self.arg(op)
             elif k == "typed":
                 c = self.get(op["c"], ("coll",))
                 setattr(c, {"source": "sources", "sensor": "sensors", "coll": "collections"}[op["k"]],
-                        self.many(op["objs"]))
+                        self.arg(op))
             elif k == "ctor":
-                objs = self.many(op["objs"])
                 # Collection(*objs) == __new__ + __init__ ; split so that the object is known to the
                 # registry even when __init__ raises after having become somebody's parent
                 c = magpy.Collection.__new__(magpy.Collection)
                 self.reg(c, "coll")
-                c.__init__(*objs, override_parent=op["ov"])
+                a = self.arg(op)
+                if op.get("form", "varargs") == "varargs":
+                    c.__init__(*a, override_parent=op["ov"])
+                else:
+                    c.__init__(a, override_parent=op["ov"])
             elif k == "plus":
                 a, b = self.get(op["a"]), self.get(op["b"])
                 if self.kinds[op["a"]] == "junk":
@@ -132,6 +164,16 @@ class World:
             elif k == "copy":
                 x = self.get(op["x"], ("source", "sensor", "coll"))
                 new = x.copy()
+                self.reg_copy(op["x"], new)
+            elif k == "copyp":          # search only: copy(parent=coll) = copy, then parent assignment
+                x = self.get(op["x"], ("source", "sensor", "coll"))
+                try:
+                    new = x.copy(parent=self.get(op["p"]))
+                except Exception:
+                    # the clone exists even when the parent assignment was rejected, but is unreachable
+                    for _ in range(len(self.objs)):
+                        self.reg(0, "junk")
+                    raise
                 self.reg_copy(op["x"], new)
             else:
                 raise ValueError(k)
@@ -257,6 +299,15 @@ def check_invariant(world):
             return "views", ci, f"collection {ci}: .children_all is not the flattening of the subtree"
         if sorted(id(x) for x in c.children) != sorted(id(x) for n in tests for x in getattr(c, n)):
             return "views", ci, f"collection {ci}: typed lists do not partition .children"
+        # the other read-only views of the tree: iteration, len, indexing, describe()
+        if [id(x) for x in c] != [id(x) for x in c.children] or len(c) != len(c.children) or \
+                any(c[k] is not ch for k, ch in enumerate(c.children)):
+            return "views", ci, f"collection {ci}: iter/len/getitem disagree with .children"
+        import re as _re
+        txt = c.describe(format="id", max_elems=10 ** 6, return_string=True)
+        ids = [int(m) for m in _re.findall(r"id=(\d+)", txt)]
+        if ids != [id(c)] + [id(x) for x in fl]:
+            return "views", ci, f"collection {ci}: describe() is not the pre-order listing of the subtree"
     return None
 
 
@@ -306,7 +357,7 @@ def pick(rng, pool, k, dup=0.08):
     return out
 
 
-def gen_op(rng, w, profile, inv_ok):
+def gen_op(rng, w, profile, inv_ok, search=False):
     kinds = w.kinds
     n = len(kinds)
     live = [i for i in range(n) if kinds[i] != "junk"]
@@ -329,30 +380,58 @@ def gen_op(rng, w, profile, inv_ok):
             out.insert(rng.randint(0, len(out)), rng.choice(junk))
         return out
 
+    def form(op, typed=False):
+        """vary HOW the argument is passed (same model operation): list / tuple / the live list of
+        another collection (aliasing) / the bare object"""
+        y = rng.random()
+        if y < 0.55:
+            return op
+        if y < 0.70:
+            op["form"] = "list" if not typed else "tuple"
+        elif y < 0.80:
+            op["form"] = "tuple"
+        elif y < 0.93:
+            src = rng.choice(colls)
+            attr = rng.choice(["children", "children", "sources", "sensors", "collections"])
+            live = [w.idx(o) for o in getattr(w.objs[src], attr)]
+            if UNKNOWN not in live and (live or op["op"] != "plus"):
+                op.update(form="alias", src=src, attr=attr, objs=live)
+        elif typed and len(op["objs"]) >= 1:
+            op.update(form="bare", objs=op["objs"][:1])
+        return op
+
     x = rng.random()
     if x < 0.27:
-        return {"op": "add", "c": rng.choice(colls), "objs": args(), "ov": rng.random() < 0.45}
+        big = profile == "big" and rng.random() < 0.5
+        return form({"op": "add", "c": rng.choice(colls), "objs": pick(rng, live, rng.randint(8, 18)) if big else args(),
+                     "ov": rng.random() < 0.45})
     if x < 0.40:
         c = rng.choice(colls)
         sub = [w.idx(o) for o in w.objs[c].children_all] if inv_ok else []
         sub = [i for i in sub if i != UNKNOWN]
         objs = pick(rng, sub, rng.choice([1, 1, 2])) if sub and rng.random() < 0.7 else args()
-        return {"op": "remove", "c": c, "objs": objs, "rec": rng.random() < 0.7,
-                "err": rng.choice(["raise", "raise", "ignore", "bad"] if mal else ["raise", "raise", "raise", "ignore"])}
+        return form({"op": "remove", "c": c, "objs": objs, "rec": rng.random() < 0.7,
+                     "err": rng.choice(["raise", "raise", "ignore", "bad"] if mal else ["raise", "raise", "raise", "ignore"])})
     if x < 0.52:
         p = rng.random()
         tgt = None if p < 0.35 else rng.choice(colls) if p < 0.9 or not mal else rng.choice(live + junk)
         return {"op": "parent", "x": rng.choice(live), "p": tgt}
     if x < 0.60:
-        return {"op": "children", "c": rng.choice(colls), "objs": args()}
+        op = form({"op": "children", "c": rng.choice(colls), "objs": args()}, typed=True)
+        if op.get("form") == "bare":
+            op.pop("form")          # `coll.children = <one object>` is a TypeError after detaching: not modelled
+        return op
     if x < 0.71:
-        return {"op": "typed", "k": rng.choice(["source", "sensor", "coll"]), "c": rng.choice(colls), "objs": args()}
+        return form({"op": "typed", "k": rng.choice(["source", "sensor", "coll"]), "c": rng.choice(colls), "objs": args()},
+                    typed=True)
     if x < 0.78:
         a = rng.choice(live + (junk if mal else []))
         return {"op": "plus", "a": a, "b": rng.choice(live + (junk if mal and a in live else []))}
     if x < 0.86:
-        return {"op": "ctor", "objs": args(), "ov": rng.random() < 0.4}
+        return form({"op": "ctor", "objs": args(), "ov": rng.random() < 0.4})
     if x < 0.91 and inv_ok and n <= 12:
+        if search and rng.random() < 0.4:
+            return {"op": "copyp", "x": rng.choice(live), "p": rng.choice(colls + (junk if mal else []))}
         return {"op": "copy", "x": rng.choice(live)}
     if x < 0.95:
         return {"op": "new", "k": rng.choice(["source", "sensor", "coll", "junk"])}
@@ -386,18 +465,29 @@ def run_history(ops, tolerant=False):
     return done, trace, viol
 
 
-def random_history(rng, profile):
+def random_history(rng, profile, search=False):
+    """profiles: valid | malformed | big (16-22 objects, argument lists of 8-18 objects) |
+    deep (starts from a chain of 3-5 nested collections with leaves at every level)"""
     w = World()
     ops, trace, viol = [], [], None
-    n0 = rng.randint(3, 8)
+    n0 = rng.randint(16, 22) if profile == "big" else rng.randint(3, 8)
     kinds0 = [rng.choice(["source", "sensor", "coll", "coll", "source", "sensor", "coll", "junk"]) for _ in range(n0)]
     if "coll" not in kinds0:
         kinds0[rng.randrange(n0)] = "coll"
     plan = [{"op": "new", "k": k} for k in kinds0]
+    if profile == "deep":
+        depth = rng.randint(3, 5)
+        kinds0 = ["coll"] * depth + [rng.choice(["source", "sensor"]) for _ in range(depth)] + \
+            [rng.choice(["source", "sensor", "coll"]) for _ in range(rng.randint(0, 3))]
+        plan = [{"op": "new", "k": k} for k in kinds0]
+        for d in range(depth):          # collection d holds leaf depth+d and collection d+1
+            plan.append({"op": "add", "c": d, "objs": [depth + d] + ([d + 1] if d + 1 < depth else []),
+                         "ov": False})
+    n0 = len(plan)
     nops = rng.randint(3, 12)
     inv_ok = True
     for t in range(n0 + nops):
-        op = plan[t] if t < n0 else gen_op(rng, w, profile, inv_ok)
+        op = plan[t] if t < n0 else gen_op(rng, w, profile, inv_ok, search)
         out = w.apply(op)
         ops.append(op)
         trace.append((out, w.observe()))
@@ -567,6 +657,22 @@ DIRECTED = [
         {"op": "typed", "k": "coll", "c": 0, "objs": [1, 2, 6]}, {"op": "typed", "k": "sensor", "c": 0, "objs": [4, 6]},
         {"op": "typed", "k": "source", "c": 1, "objs": []}, {"op": "children", "c": 0, "objs": [1, 0]},
         {"op": "children", "c": 0, "objs": [2, 3, 1]}, {"op": "children", "c": 1, "objs": [0]}],
+    # aliasing: the collection's own live lists (and another collection's) passed back in; bare objects
+    _n("coll", "coll", "sensor", "source", "sensor", "coll") + [
+        {"op": "add", "c": 0, "objs": [2, 3, 5], "ov": False}, {"op": "add", "c": 1, "objs": [4], "ov": False},
+        {"op": "children", "c": 0, "objs": None, "form": "alias", "src": 0, "attr": "children"},
+        {"op": "add", "c": 0, "objs": None, "ov": True, "form": "alias", "src": 0, "attr": "children"},
+        {"op": "add", "c": 0, "objs": None, "ov": False, "form": "alias", "src": 0, "attr": "children"},
+        {"op": "typed", "k": "sensor", "c": 0, "objs": None, "form": "alias", "src": 0, "attr": "sensors"},
+        {"op": "typed", "k": "sensor", "c": 1, "objs": None, "form": "alias", "src": 0, "attr": "sensors"},
+        {"op": "add", "c": 1, "objs": None, "ov": True, "form": "alias", "src": 0, "attr": "children"},
+        {"op": "typed", "k": "source", "c": 0, "objs": [1], "form": "bare"},
+        {"op": "typed", "k": "coll", "c": 0, "objs": [1], "form": "bare"},
+        {"op": "typed", "k": "sensor", "c": 5, "objs": [2], "form": "bare"},
+        {"op": "remove", "c": 0, "objs": None, "rec": True, "err": "raise", "form": "alias", "src": 0, "attr": "children"},
+        {"op": "ctor", "objs": None, "ov": True, "form": "alias", "src": 1, "attr": "children"},
+        {"op": "remove", "c": 1, "objs": None, "rec": True, "err": "raise", "form": "alias", "src": 1, "attr": "children"},
+        {"op": "ctor", "objs": [2, 3], "ov": True, "form": "tuple"}, {"op": "add", "c": 0, "objs": [2], "ov": True, "form": "list"}],
     # constructor / + with parented, duplicate and foreign arguments; copy inside a tree
     _n("sensor", "source", "coll", "junk") + [
         {"op": "ctor", "objs": [0, 1], "ov": False}, {"op": "ctor", "objs": [0], "ov": False},
@@ -596,7 +702,9 @@ def probe_variant(ctx):
 # ------------------------------------------------------------------ main
 def run(ctx):
     ctx.extra["rule"] = (
-        "random histories over 3-8 initial objects (sources of 5 classes, sensors, collections, foreign values) "
+        "random histories over 3-8 (profile big: 16-22; profile deep: a chain of 3-5 nested collections) initial objects "
+        "(sources of 5 classes, sensors, collections, foreign values), multi-object arguments passed as varargs / list / "
+        "tuple / the LIVE children or typed list of a collection (aliasing) / a bare object, "
         "through the public API: add/remove/parent=/children=/sources=/sensors=/collections=/+/Collection()/copy, "
         "override_parent, recursive, errors raise/ignore/other, duplicates, already-parented and self-referencing "
         "arguments; a 'valid' and a 'malformed' stream; after every operation outcome + full observable state "
@@ -648,7 +756,8 @@ def run(ctx):
         cases = []
         nrand = ctx.n(500, 8000)
         for t in range(nrand):
-            profile = "malformed" if t % 4 == 3 else "valid"
+            profile = ["valid", "valid", "deep", "malformed", "valid", "deep", "big" if t % 32 == 6 else "valid",
+                       "malformed"][t % 8]
             ops, trace, viol = random_history(ctx.rng, profile)
             cases.append((ops, trace))
             nontrivial = any(out != "Ok" for out, _ in trace) or any(
@@ -656,12 +765,15 @@ def run(ctx):
             ctx.case(json.dumps(ops, sort_keys=True), nontrivial)
             for op, (out, _) in zip(ops, trace):
                 ctx.bump(f"op:{op['op']}:{out}")
+                if op.get("form"):
+                    ctx.bump("argument-form:" + op["form"])
             ctx.bump("history:" + profile)
             if viol is not None:
                 viols.append((ops, viol, presig(ops, trace, viol)))
                 ctx.bump("history-with-violation")
+        import copy as _copy
         for ops in DIRECTED:
-            done, trace, viol = run_history(ops)
+            done, trace, viol = run_history(_copy.deepcopy(ops))
             cases.append((done, trace))
             ctx.case(json.dumps(done, sort_keys=True), True)
             ctx.bump("history:directed")
@@ -700,8 +812,8 @@ def run(ctx):
         big = bool(ctx.broken)
         n = ctx.n(300, 6000) * (8 if big else 1)
         for t in range(n):
-            profile = "malformed" if t % 2 else "valid"
-            ops, trace, viol = random_history(ctx.rng, profile)
+            profile = ["valid", "malformed", "deep", "malformed", "valid", "big" if t % 24 == 5 else "deep"][t % 6]
+            ops, trace, viol = random_history(ctx.rng, profile, search=True)
             ctx.case(json.dumps(ops, sort_keys=True), True)
             ctx.bump("search-history:" + profile)
             if viol is not None:
